@@ -223,3 +223,7 @@ Lemma getitem_str_0 c r : py_getitem (VStr (c :: r)) (VInt 0) = Ok (VStr [c]).
 Proof. reflexivity. Qed.
 Lemma slice_str_1 c r : py_slice (VStr (c :: r)) (VInt 1) VNone = Ok (VStr r).
 Proof. cbn [py_slice as_bound as_int bind]. rewrite pyslice_tail. reflexivity. Qed.
+
+(** fuel for a call of a fuel-recursive generated function from another function:
+    the recursion of [int_to_chars] strictly decreases its integer argument *)
+Definition fuel_of (v : pyval) : nat := match v with VInt z => S (Z.to_nat z) | _ => 1%nat end.
